@@ -332,7 +332,12 @@ def oracle_options(case, rec):
     import emd
     x = gens.sig_of(case['sig'])
     name = case['routine']
-    ia = np.abs(np.asarray(emd.sift.sift(x.copy(), max_imfs=2))) + 0.1
+    try:
+        ia = np.abs(np.asarray(emd.sift.sift(x.copy(), max_imfs=2))) + 0.1
+    except emd.support.EMDSiftCovergeError:
+        raise Discard('convergence error')
+    except Exception as e:
+        raise Violation('C19/sift/default-call-raises/' + type(e).__name__, repr(e))
     freqs = [0.2, 0.08, 0.03]
     base = {'imf_opts': {'stop_method': 'fixed', 'max_iters': 3}, 'envelope_opts': {'interp_method': 'pchip'},
             'extrema_opts': {'pad_width': 3, 'mag_pad_opts': {'mode': 'median', 'stat_length': 2}}}
@@ -379,6 +384,25 @@ def oracle_options(case, rec):
         raise Discard('convergence error')
     except Exception as e:
         raise Violation('C19/%s/raises/%s' % (name, type(e).__name__), repr(e))
+    # a configuration object obtained from the library, edited in place and never used: default calls made afterwards, and the
+    # defaults a fresh configuration reports, must be what they were
+    n = x.size
+    try:
+        fresh_before = copy.deepcopy(emd.sift.get_config('sift').store)
+        base0 = np.asarray(emd.sift.sift(x.copy(), max_imfs=3))
+        cfg = emd.sift.get_config(['sift', 'mask_sift', 'ensemble_sift'][n % 3])
+        cfg['extrema_opts/mag_pad_opts/stat_length'] = 4
+        cfg['imf_opts/sd_thresh'] = 0.37
+        after0 = np.asarray(emd.sift.sift(x.copy(), max_imfs=3))
+        fresh_after = emd.sift.get_config('sift').store
+    except emd.support.EMDSiftCovergeError:
+        after0 = base0 = None
+    if base0 is not None:
+        if not same(base0, after0):
+            raise Violation('C19/sift/default-call-changes-after-an-unused-configuration-was-edited', '')
+        if repr(fresh_before) != repr(fresh_after):
+            raise Violation('C19/get_config/defaults-changed-after-another-configuration-was-edited',
+                            '%r -> %r' % (fresh_before.get('extrema_opts'), fresh_after.get('extrema_opts')))
     rec.cls('routine=' + name)
     return True
 
